@@ -10,6 +10,7 @@ import (
 	"os"
 	"os/exec"
 	"path/filepath"
+	"runtime/debug"
 	"strings"
 	"sync"
 	"time"
@@ -33,6 +34,7 @@ var (
 	flagChildOut = flag.String("child-out", "", "internal: results file of the child")
 	flagChildD42 = flag.Bool("child-d42", false, "internal: run the D42 replay in this child process")
 	flagChildPar = flag.Int("child-par", 0, "internal: scenarios in flight")
+	flagChildMem = flag.Int64("child-mem", 0, "internal: bound on the estimated bytes held by the scenarios in flight")
 	flagChildD71 = flag.Bool("child-d71", false, "internal: run the D71 replay (Close() while sending) in this child process")
 	flagChildD70 = flag.Bool("child-d70", false, "internal: run the D70 replay (ApplyConfig while sending) in this child process")
 )
@@ -261,15 +263,27 @@ func childMain(env *vh.Env) {
 		par = 96
 	}
 	sem := make(chan struct{}, par)
+	// memory: the scenarios in flight hold their packs, reference frames and received streams; the sum of
+	// their estimates stays under the budget (a scenario heavier than the whole budget runs alone), and the
+	// collector is told to work harder before the process gets big
+	budget := *flagChildMem
+	if budget <= 0 {
+		budget = 3 << 30
+	}
+	debug.SetMemoryLimit(budget + 1<<30)
+	gate := newMemGate(budget)
 	var wg sync.WaitGroup
 	var pmu sync.Mutex
 	var pend []*scenRecord
 	for _, j := range jobs {
 		wg.Add(1)
 		sem <- struct{}{}
+		wgt := specWeight(j.Spec)
+		gate.acquire(wgt)
 		go func(j job) {
 			defer wg.Done()
 			defer func() { <-sem }()
+			defer gate.release(wgt)
 			emit(scenRecord{Event: "start", Idx: j.Idx, Spec: j.Spec})
 			r := evaluate(j, env.Driver)
 			if r.pending != nil {
@@ -339,6 +353,51 @@ func childMain(env *vh.Env) {
 	out.Close()
 }
 
+// specWeight estimates the bytes a scenario holds while it runs: every pack is kept as the pack itself, its
+// reference frame, the bytes the collector stand-in received, and (transiently) the client's copy.
+func specWeight(sp scenarioSpec) int64 {
+	sends := int64(sp.Senders) * int64(sp.PreMax+sp.Post)
+	per := int64(600)
+	switch {
+	case sp.BigAll > 0:
+		per = int64(sp.BigAll) * 9 / 8
+	case sp.Big > 0:
+		per += int64(sp.Big) * 3 / 4 * 15 / 100
+	}
+	return 4*sends*per + 8<<20
+}
+
+// memGate admits work while the sum of the weights in flight stays under the budget.
+type memGate struct {
+	mu     sync.Mutex
+	cond   *sync.Cond
+	budget int64
+	used   int64
+	n      int
+}
+
+func newMemGate(budget int64) *memGate {
+	g := &memGate{budget: budget}
+	g.cond = sync.NewCond(&g.mu)
+	return g
+}
+func (g *memGate) acquire(w int64) {
+	g.mu.Lock()
+	for g.n > 0 && g.used+w > g.budget {
+		g.cond.Wait()
+	}
+	g.used += w
+	g.n++
+	g.mu.Unlock()
+}
+func (g *memGate) release(w int64) {
+	g.mu.Lock()
+	g.used -= w
+	g.n--
+	g.mu.Unlock()
+	g.cond.Broadcast()
+}
+
 type childRun struct {
 	done     map[int]*scenRecord
 	inflight []job // started, not finished
@@ -361,6 +420,19 @@ func tmpName(dir, what string) string {
 
 // runChild runs the jobs in one child process.
 func runChild(env *vh.Env, jobs []job, par int, timeout time.Duration) *childRun {
+	return runChildMem(env, jobs, par, 0, timeout)
+}
+
+// killedByOS: the child ended with SIGKILL that this process did not send (its own timeout kills are
+// flagged separately).  A Go program cannot end like that on its own — a crash of the client is an exit
+// with a panic or "fatal error" trace, a deadlock is reported by the runtime, a hang runs into the
+// timeout — so this is the kernel's out-of-memory killer (or an operator): a statement about the
+// machine, not about the client.
+func (cr *childRun) killedByOS() bool {
+	return !cr.timedOut && strings.Contains(cr.exitErr, "signal: killed")
+}
+
+func runChildMem(env *vh.Env, jobs []job, par int, mem int64, timeout time.Duration) *childRun {
 	cr := &childRun{done: map[int]*scenRecord{}}
 	dir := os.TempDir()
 	specFile, outFile := tmpName(dir, "specs.json"), tmpName(dir, "results.jsonl")
@@ -381,7 +453,7 @@ func runChild(env *vh.Env, jobs []job, par int, timeout time.Duration) *childRun
 	ctx, cancel := context.WithTimeout(context.Background(), timeout)
 	defer cancel()
 	cmd := exec.CommandContext(ctx, exe, "-child", specFile, "-child-out", outFile, "-child-par", fmt.Sprint(par),
-		"-driver", env.Driver, "-tier", env.Tier, "-seed", fmt.Sprint(env.Seed), "-repo", env.Repo)
+		"-child-mem", fmt.Sprint(mem), "-driver", env.Driver, "-tier", env.Tier, "-seed", fmt.Sprint(env.Seed), "-repo", env.Repo)
 	var errb tailBuffer
 	cmd.Stderr = &errb
 	cmd.Stdout = &errb
@@ -495,14 +567,36 @@ func runIsolated(env *vh.Env, jobs []job, par int) (map[int]*scenRecord, []crash
 		batchTimeout = 45 * time.Minute
 	}
 	pending := jobs
-	for round := 0; len(pending) > 0 && round < 8; round++ {
-		cr := runChild(env, pending, par, batchTimeout)
+	mem := int64(3 << 30)
+	oomRounds := 0
+	for round := 0; len(pending) > 0 && round < 12; round++ {
+		cr := runChildMem(env, pending, par, mem, batchTimeout)
 		for k, v := range cr.done {
 			done[k] = v
 		}
 		if cr.exitErr == "" && len(cr.inflight) == 0 && len(cr.rest) == 0 {
 			pending = nil
 			break
+		}
+		if cr.killedByOS() {
+			// out of memory on this machine: the scenarios that did not finish are run again with a quarter
+			// of the parallelism and half the memory budget, after a pause; never a finding
+			oomRounds++
+			notes = append(notes, fmt.Sprintf("child process killed by the operating system (out of memory) with %d scenarios in flight, %d not started; re-running them with less parallelism (round %d)", len(cr.inflight), len(cr.rest), oomRounds))
+			pending = append(append([]job(nil), cr.inflight...), cr.rest...)
+			if oomRounds >= 5 {
+				notes = append(notes, fmt.Sprintf("%d scenarios were not run: the operating system kept killing the process that ran them (out of memory)", len(pending)))
+				pending = nil
+				break
+			}
+			if par = par / 4; par < 1 {
+				par = 1
+			}
+			if mem /= 2; mem < 256<<20 {
+				mem = 256 << 20
+			}
+			time.Sleep(time.Duration(oomRounds) * 3 * time.Second)
+			continue
 		}
 		what := "died"
 		if cr.timedOut {
@@ -511,6 +605,7 @@ func runIsolated(env *vh.Env, jobs []job, par int) (map[int]*scenRecord, []crash
 		notes = append(notes, fmt.Sprintf("child process %s (%s) with %d scenarios in flight, %d not started; in-flight scenarios re-run one per process", what, cr.exitErr, len(cr.inflight), len(cr.rest)))
 		// find the culprit: each in-flight scenario alone, up to 8 processes at a time, twice
 		attributed := false
+		var oomSkipped []string
 		var mu sync.Mutex
 		var wg sync.WaitGroup
 		sem := make(chan struct{}, 8)
@@ -522,6 +617,18 @@ func runIsolated(env *vh.Env, jobs []job, par int) (map[int]*scenRecord, []crash
 				defer func() { <-sem }()
 				for try := 0; try < 2; try++ {
 					one := runChild(env, []job{j}, 1, 8*time.Minute)
+					for k := 0; k < 3 && one.killedByOS(); k++ {
+						time.Sleep(time.Duration(k+1) * 5 * time.Second)
+						one = runChild(env, []job{j}, 1, 8*time.Minute)
+					}
+					if one.killedByOS() {
+						mu.Lock()
+						attributed = true // explained: not a crash of the client
+						delete(done, j.Idx)
+						oomSkipped = append(oomSkipped, j.Spec.Name)
+						mu.Unlock()
+						return
+					}
 					if r, ok := one.done[j.Idx]; ok {
 						mu.Lock()
 						done[j.Idx] = r
@@ -548,6 +655,9 @@ func runIsolated(env *vh.Env, jobs []job, par int) (map[int]*scenRecord, []crash
 			}(j)
 		}
 		wg.Wait()
+		for _, n := range oomSkipped {
+			notes = append(notes, fmt.Sprintf("scenario %q not run: the operating system killed the process that ran it alone (out of memory), four times", n))
+		}
 		if !attributed && (len(cr.inflight) > 0 || cr.exitErr != "") {
 			var specs []scenarioSpec
 			cls := "direct:concurrent-senders"
